@@ -169,7 +169,7 @@ def run(cx, rep):
                 it = unparen(n["init"])
                 if it["type"] in ("ArrayExpression", "ObjectExpression", "NewExpression", "TemplateLiteral") or \
                         (it["type"] == "CallExpression" and (s(it["callee"]) in ("Object.keys", "Object.entries", "Object.values", "Array.from", "deepmerge") or
-                                                             (method_call(it) and method_call(it)[1] in ("filter", "map", "slice", "concat", "flat", "parseAfterValidation", "reportDecodeError", "validate", "keys", "values", "entries")))):
+                                                             (method_call(it) and method_call(it)[1] in ("filter", "map", "slice", "concat", "flat", "reportDecodeError", "validate", "keys", "values", "entries")))):
                     fresh.add(n["id"]["value"])
         roots = T.names() - fresh - {p for p in ps if p != ps[1]}
         for n in walk(fn):
@@ -186,6 +186,12 @@ def run(cx, rep):
                 if mc and mc[1] in MUTATORS:
                     tgt = mc[0]
                     what = "%s.%s(..)" % (s(mc[0]), mc[1])
+                elif s(n["callee"]) in ("Object.assign", "Object.defineProperty", "Object.defineProperties", "Object.setPrototypeOf", "Object.freeze", "Object.seal",
+                                        "Reflect.set", "Reflect.deleteProperty", "Reflect.defineProperty") and n["arguments"]:
+                    # a child's parseAfterValidation may hand back the input object itself (opaque leaves, `any`):
+                    # its result is input-derived, and writing into it writes into the caller's value
+                    tgt = n["arguments"][0]["expression"]
+                    what = "%s(%s, ..)" % (s(n["callee"]), s(tgt))
             if tgt is None:
                 continue
             base = unparen(tgt)
